@@ -610,6 +610,36 @@ class Stats:
         return dict(self.__dict__)
 
 
+def _cvc5_check(smt2_text, timeout_ms):
+    """second opinion from the cvc5 binary on a query z3 could not decide; returns z3.sat / z3.unsat / z3.unknown.
+    Any '(error' line or unexpected output counts as unknown."""
+    import os
+    import shutil
+    import subprocess
+    import tempfile
+    exe = shutil.which('cvc5')
+    if exe is None:
+        return z3.unknown
+    fd, path = tempfile.mkstemp(suffix='.smt2', prefix='symx-')
+    try:
+        with os.fdopen(fd, 'w') as f:
+            f.write('(set-logic ALL)\n' + smt2_text)
+        try:
+            out = subprocess.run([exe, '--lang', 'smt2', f'--tlimit={int(timeout_ms)}', path], capture_output=True,
+                                 text=True, timeout=timeout_ms / 1000 + 30).stdout
+        except Exception:
+            return z3.unknown
+    finally:
+        try:
+            os.unlink(path)
+        except OSError:
+            pass
+    lines = [ln.strip() for ln in out.splitlines() if ln.strip()]
+    if any(ln.startswith('(error') for ln in lines) or len(lines) != 1:
+        return z3.unknown
+    return {'sat': z3.sat, 'unsat': z3.unsat}.get(lines[0], z3.unknown)
+
+
 class SymEnv:
     symbolic = True
     TWIN = False      # reachability twin: the first check site reached is replaced by False
@@ -641,14 +671,29 @@ class SymEnv:
         if r == z3.unknown:
             # the incremental core gave up: one-shot solver (full preprocessing) on the same query
             self.stats.notes['__fallback_queries'] = self.stats.notes.get('__fallback_queries', 0) + 1
-            s2 = z3.Solver()
-            s2.set('timeout', self.fallback_timeout_ms)
-            s2.add(self.solver.assertions())
-            s2.add(*extra)
-            r = s2.check()
-            if r == z3.sat:
-                # make the model available through the main solver interface
-                self._fallback_model = s2.model()
+            # further attempts within the fallback budget: z3 one-shot with its default arithmetic core (10 %),
+            # z3 one-shot with the simplex core arith.solver=2 (30 %), the cvc5 binary on the SMT-LIB dump (30 %),
+            # z3 one-shot again with the rest
+            total = self.fallback_timeout_ms
+            for attempt, share in (('z3-oneshot', 0.1), ('z3-simplex', 0.3), ('cvc5', 0.3), ('z3-oneshot-long', 0.3)):
+                per = max(1000, int(total * share))
+                self.stats.notes['__fallback_' + attempt] = self.stats.notes.get('__fallback_' + attempt, 0) + 1
+                s2 = z3.Solver()
+                s2.set('timeout', per)
+                if attempt == 'z3-simplex':
+                    s2.set('arith.solver', 2)
+                s2.add(self.solver.assertions())
+                s2.add(*extra)
+                if attempt == 'cvc5':
+                    r = _cvc5_check(s2.to_smt2(), per)
+                else:
+                    r = s2.check()
+                    if r == z3.sat:
+                        # make the model available through the main solver interface
+                        self._fallback_model = s2.model()
+                if r != z3.unknown:
+                    self.stats.notes['__decided_by_' + attempt] = self.stats.notes.get('__decided_by_' + attempt, 0) + 1
+                    break
         self.stats.solver_s += _time.perf_counter() - t
         self.stats.queries += 1
         if r == z3.sat:
